@@ -50,6 +50,12 @@ def _call(S, entry, x, kw):
     try:
         if entry == 'direct':
             return S.get_next_imf_mask(x.copy(), **kw), None
+        if entry == 'second_layer':
+            # amplitude-like positive series as first-layer envelopes; the routine edits sift_args in place
+            IA = np.stack([2.0 + 0.5 * x / (np.abs(x).max() + 1e-12), 1.5 + 0.4 * np.roll(x, 7) / (np.abs(x).max() + 1e-12)], axis=1)
+            args = dict(kw)
+            freqs = list(args.pop('mask_freqs'))
+            return S.mask_sift_second_layer(IA, freqs, sift_args=args), None
         return S.mask_sift(x.copy(), **kw), None
     except W.InjectedFault:
         raise
@@ -170,7 +176,7 @@ def scenario(w):
     ch = w.ch
     emd = C.emd()
     S = emd.sift
-    entry = ch.wchoice('entry', ['mask_sift', 'direct'], [2, 1])
+    entry = ch.wchoice('entry', ['mask_sift', 'direct', 'second_layer'], [4, 2, 1])
     x, sdesc = draw_signal(ch, 96, 304)
     nph = NPHASES[ch.pick('nphases', 8)]
     nproc = 1 + ch.weighted('nprocesses', [2, 4, 4, 3, 2, 1, 1, 1])
@@ -183,6 +189,11 @@ def scenario(w):
         kw = dict(z=z, amp=ampf * sd_x, nphases=nph, imf_opts=imf_opts)
         src, amode = 'direct', 'direct'
         desc.update(z=z, amp=ampf * sd_x)
+    elif entry == 'second_layer':
+        src, amode = 'list', ch.choice('mask_amp_mode', ['ratio_imf', 'ratio_sig', 'abs'])
+        kw = dict(mask_freqs=[0.3, 0.12, 0.05], mask_amp=ch.choice('mask_amp', [1, 0.5, 2.0]), mask_amp_mode=amode,
+                  max_imfs=2, nphases=nph, imf_opts=imf_opts)
+        desc.update(mask_amp_mode=amode, mask_amp=kw['mask_amp'])
     else:
         src = ch.choice('mask_freqs', ['zc', 'if', 'float', 'list', 'array', 'tuple'])
         amode = ch.choice('mask_amp_mode', ['ratio_imf', 'ratio_sig', 'abs'])
